@@ -153,6 +153,32 @@ Proof.
     + apply Hstep. intros j Hj. apply (in_tracked_drop _ _ _ _ _ Hj).
 Qed.
 
+Lemma once_drop_only c F ks : forall rs h d inv,
+  Once c F rs -> get_inv (rs_invs rs) (r_id (ds_reg d)) = S inv -> NoDup ks ->
+  (forall j k, In j (tracked (rs_p rs) ++ F) -> of_invocation (r_id (ds_reg d)) inv j k -> ~ In k ks) ->
+  Once c F (with_p rs (drop_only (rs_p rs) h d inv ks)).
+Proof.
+  induction ks as [|k rest IH]; intros rs h d inv H Hc Hnd Hfresh; cbn [drop_only]; [destruct rs; exact H|].
+  inversion Hnd as [|x l Hk Hrest]; subst.
+  assert (Hnew : ~ In (out_inst (ds_reg d) inv k) (tracked (rs_p rs) ++ F)).
+  { intros Hin. apply (Hfresh _ k Hin); [eexists; reflexivity|left; reflexivity]. }
+  assert (Hb : inst_bounded (rs_invs rs) (out_inst (ds_reg d) inv k)) by (cbn; rewrite Hc; lia).
+  assert (Hstep : forall p', (forall j, In j (tracked p') -> j = out_inst (ds_reg d) inv k \/ In j (tracked (rs_p rs))) ->
+            forall j k', In j (tracked p' ++ F) -> of_invocation (r_id (ds_reg d)) inv j k' -> ~ In k' rest).
+  { intros p' Hsub j k' Hj Hof Hin. apply in_app_or in Hj.
+    assert (Hcase : j = out_inst (ds_reg d) inv k \/ In j (tracked (rs_p rs) ++ F)).
+    { destruct Hj as [Hj|Hj]; [destruct (Hsub j Hj) as [->|Hold]; [left; reflexivity|right; apply in_or_app; left; exact Hold]|right; apply in_or_app; right; exact Hj]. }
+    destruct Hcase as [->|Hold].
+    - destruct Hof as [dyn E]. unfold out_inst in E. inversion E; subst. contradiction.
+    - apply (Hfresh j k' Hold Hof). right. exact Hin. }
+  destruct (output_desc (p_descs (rs_p rs)) d k).
+  - apply IH; try assumption. intros j k' Hj Hof Hin. apply (Hfresh j k' Hj Hof). right. exact Hin.
+  - apply (IH (with_p rs (drop_output (rs_p rs) h (ds_life d) (out_inst (ds_reg d) inv k)))); cbn [rs_p rs_invs with_p]; try assumption.
+    + apply once_drop; assumption.
+    + apply Hstep. intros j Hj. apply (in_tracked_drop _ _ _ _ _ Hj).
+Qed.
+
+
 (* counting an invocation keeps the invariant, and no listed instance belongs to the invocation just counted *)
 Lemma bounded_bump invs rid i : inst_bounded invs i -> inst_bounded (bump_inv invs rid) i.
 Proof. destruct i as [r inv k dyn|]; cbn; [|auto]. intros H. pose proof (inv_le_bump invs rid r). lia. Qed.
@@ -273,8 +299,9 @@ Section Once.
         assert (Hnone : forall j k, In j (tracked (rs_p rs2) ++ F) -> of_invocation rid inv j k -> False).
         { intros j k Hj Hof. rewrite Hp in Hj. destruct H1 as (_ & _ & Hb1). exact (none_of_this_invocation (rs_invs rs1) _ rid j k Hb1 Hj Hof). }
         destruct o; cbn [fst]; try exact H3.
-        apply once_fan_out; [exact H3|exact Hcnt|apply seq_NoDup|].
-        intros j k Hj Hof _. exact (Hnone j k Hj Hof).
+        match goal with |- context [stores_any ?a ?b ?c] => destruct (stores_any a b c) end; cbn [fst];
+          [apply once_fan_out|apply once_drop_only]; try (exact H3 || exact Hcnt || apply seq_NoDup);
+          intros j k Hj Hof _; exact (Hnone j k Hj Hof).
     Qed.
   End WithRec.
 
